@@ -1,5 +1,7 @@
 """C07 — subscriptions() returns every applicable subscriber, with multiplicity, in order
 (DESIGN.md section 5, C07)."""
+import copy
+
 from .. import common as C
 from . import regcommon as RC
 
@@ -20,6 +22,11 @@ RULE = ("worlds of 3-5 interfaces (<= 3 bases) + 0-3 classes + 3 objects; regist
         "on the same provided interfaces (count drift), registry re-basing; queries after every few "
         "mutations and a final block: subscriptions for descendants of every used key x ancestors of its provided, "
         "from every registry, subscribed for every used key and value, allSubscriptions, subscribers with objects; "
+        "lookupAll / names / lookup queries with the same (registry, required, provided) immediately before and "
+        "after subscriptions queries, adapters registered under subscription keys; DYNAMIC-WORLD stream: between "
+        "arity >= 2 subscriptions queries that share leading required specs, interface __bases__ are reassigned / "
+        "classImplements is applied to a class used as required (never to a provided interface), and the queries are "
+        "repeated, judged with the __sro__ of the current graph; "
         "non-trivial = some subscriptions() answer has >= 2 values; distinct = distinct (flavour, #registries, "
         "multiset of answer lengths, duplicates?, unsubscribe removed several?) signature")
 TRUSTED_BASE = [
@@ -95,6 +102,24 @@ def _gen_case(rng, tier):
         n_o = len(req)
         return ["subscribers", r, [rng.randrange(nobj) for _ in range(n_o)], look_prov(p)]
 
+    def with_lookups(q):
+        """the subscriptions query q, with lookupAll / names / lookup queries for the SAME (registry,
+        required, provided) immediately before and/or after it (the entry points have separate
+        caches: _cache, _mcache, _scache)"""
+        _k, r, req, p = q
+        if p is None or rng.random() < 0.35:
+            return [q]
+
+        def other():
+            u = rng.random()
+            if u < 0.5:
+                return ["lookupAll", r, list(req), p]
+            if u < 0.75:
+                return ["names", r, list(req), p]
+            return ["lookup", r, list(req), p, rng.choice([0, 0, 1])]
+        pat = rng.choice(["bq", "qb", "bqb", "bqbq", "qbq"])
+        return [other() if c == "b" else list(q) for c in pat]
+
     n_mut = rng.choice([12, 20, 30, 45])
     # rebuild() is not part of C07's histories and is left out on purpose: (1) the shared model's
     # rebuild replays allRegistrations()/allSubscriptions() in flat insertion order whereas the
@@ -102,7 +127,7 @@ def _gen_case(rng, tier):
     # the property does not constrain, but the exact tie would see it); (2) AdapterRegistry.rebuild()
     # re-runs __init__ and thereby forgets its sub-registries (defect in C05/C06's subject).
     kinds = ["subscribe", "unsubscribe", "register", "unregister", "setregbases", "query"]
-    ws = [9, 4, 2, 1, 1.2 if n_regs > 1 else 0, 4]
+    ws = [9, 4, 3, 1, 1.2 if n_regs > 1 else 0, 4]
     for _ in range(n_mut):
         k = rng.choices(kinds, ws)[0]
         r = rng.randrange(n_regs)
@@ -125,8 +150,13 @@ def _gen_case(rng, tier):
             ops.append(["unsubscribe", r, req, p, v])
         elif k == "register":
             provs = [p for _, p in keys if p is not None] or ifaces
-            req = RC.gen_req(rng, key_pool, rng.choice([0, 1, 1, 2]))
-            ops.append(["register", r, req, rng.choice(provs), rng.choice([0, 0, 1]),
+            skeys = [kk for kk in keys if kk[1] is not None]
+            if skeys and rng.random() < 0.6:
+                req, pr = rng.choice(skeys)        # an adapter under the very key of a subscription
+                req = list(req)
+            else:
+                req, pr = RC.gen_req(rng, key_pool, rng.choice([0, 1, 1, 2])), rng.choice(provs)
+            ops.append(["register", r, req, pr, rng.choice([0, 0, 1]),
                         RC.gen_value(rng, 4) if rng.random() > 0.1 else None])
         elif k == "unregister":
             regs = [o for o in ops if o[0] == "register" and o[1] == r]
@@ -143,7 +173,7 @@ def _gen_case(rng, tier):
             key = rng.choice(keys)
             u = rng.random()
             if u < 0.6:
-                ops.append(q_subscriptions(r, key))
+                ops.extend(with_lookups(q_subscriptions(r, key)))
             elif u < 0.75 and nobj and key[0]:
                 ops.append(q_subscribers(r, key))
             elif u < 0.9:
@@ -159,7 +189,7 @@ def _gen_case(rng, tier):
     for key in uniq[:8]:
         for r in range(n_regs):
             if r == n_regs - 1 or rng.random() < 0.6:
-                ops.append(q_subscriptions(r, key))
+                ops.extend(with_lookups(q_subscriptions(r, key)))
                 if rng.random() < 0.5:
                     ops.append(q_subscriptions(r, key))
         r = rng.randrange(n_regs)
@@ -178,19 +208,177 @@ def _gen_case(rng, tier):
     return world
 
 
+def _dyn_case(rng, tier):
+    """Dynamic-world stream: between subscriptions queries the specification graph changes
+    (``Z.__bases__ = ...`` on an interface, classImplements on a class whose specification is used
+    as required), with no registry change in between; queries of arity >= 2 share their leading
+    required specs with earlier queries.  Interfaces used as PROVIDED (and their ancestors) are
+    never re-based (re-basing a provided interface is outside the property; upstream TODO)."""
+    world, ifaces, classes = RC.gen_world(rng, n_ifaces=rng.choice([4, 5, 6]), n_classes=rng.choice([2, 3, 3]),
+                                          n_objects=2)
+    specs0 = copy.deepcopy(world["specs"])      # the generator updates its picture of the world below
+    specs = world["specs"]
+    rel = RC.Rel(world)
+    # provided pool: one or two interfaces and everything above them; the rest may be re-based
+    seedp = rng.sample(ifaces[: max(2, len(ifaces) // 2)], rng.choice([1, 1, 2]))
+    frozen = set()
+    for x in seedp:
+        frozen |= set(rel.ancestors(x))
+    P = sorted(x for x in frozen if x in ifaces)
+    R = [x for x in ifaces if x not in frozen]          # re-basable interfaces
+    fl = rng.choice(["push", "verifying"])
+    n_regs = rng.choice([1, 1, 2, 3])
+    ops = []
+    for r in range(n_regs):
+        ops.append(["newreg", fl, [r - 1] if r and rng.random() < 0.8 else []])
+    look_pool = list(ifaces) + list(classes)
+    changeable = R + list(classes)
+    keys = []
+
+    def prov():
+        return rng.choice(P) if rng.random() > 0.3 else None
+
+    def look_prov(p):
+        if p is None:
+            return None
+        return rng.choice([x for x in rel.ancestors(p) if x in ifaces or x == 0])
+
+    # subscriptions of arity 1..3 (mostly >= 2) on interfaces; duplicates and equal values
+    for _ in range(rng.choice([4, 6, 9])):
+        if keys and rng.random() < 0.3:
+            req, p = rng.choice(keys)
+        else:
+            ar = rng.choice([1, 2, 2, 2, 3])
+            req = [rng.choice(ifaces + [None]) if rng.random() < 0.9 else rng.choice(classes) for _ in range(ar)]
+            p = prov()
+        keys.append((list(req), p))
+        ops.append(["subscribe", rng.randrange(n_regs), list(req), p, RC.gen_value(rng, 4)])
+    if rng.random() < 0.5:
+        req, p = rng.choice(keys)
+        if p is not None:
+            ops.append(["register", rng.randrange(n_regs), list(req), p, 0, RC.gen_value(rng, 4)])
+
+    def conv(x):
+        return 0 if x is None else x
+
+    def below(x):
+        return [d for d in rel.descendants(conv(x)) if d in look_pool] or look_pool
+
+    def change(z, want):
+        """make spec z gain (or, for an interface, lose) the interface ``want``; returns the op or None"""
+        nonlocal rel
+        sp = specs[z]
+        if sp["kind"] == "class":
+            if want in rel.ancestors(z):
+                return None
+            sp["implements"] = sp["implements"] + [want]
+            rel = RC.Rel(world)
+            return ["classimplements", z, [want], "add"]
+        cur = list(sp["bases"])
+        if want in rel.ancestors(z) and want != z:
+            nb = [b for b in cur if want not in rel.ancestors(b)]
+        elif want < z:
+            nb = RC._consistent_bases(specs, cur + [want])
+        else:
+            return None
+        if nb == cur:
+            return None
+        sp["bases"] = nb
+        rel = RC.Rel(world)
+        return ["setspecbases", z, nb]
+
+    for _ in range(rng.choice([2, 3, 4, 6])):
+        req, p = rng.choice([k for k in keys if len(k[0]) >= 2] or keys)
+        r = rng.randrange(n_regs)
+        lp = look_prov(p)
+        j = rng.randrange(1, len(req)) if len(req) >= 2 else 0      # the position whose spec will change
+        want = conv(req[j])
+        lead = [rng.choice(below(x)) for x in req]                  # a fully applicable look-up
+        zs = [z for z in changeable if z != want]
+        if not zs:
+            continue
+        # prefer a spec that can gain ``want`` (a class, or a later interface not yet extending it) or lose it
+        good = [z for z in zs if want in ifaces and
+                (specs[z]["kind"] == "class" and want not in rel.ancestors(z)
+                 or specs[z]["kind"] == "iface" and (want in rel.ancestors(z) or want < z))]
+        z = rng.choice(good) if good and rng.random() < 0.85 else rng.choice(zs)
+        others = [rng.choice(look_pool) for _ in range(rng.choice([1, 2]))]
+        qs = []
+        for y in others:                                           # same leading specs, other spec at j
+            q = list(lead)
+            q[j] = y
+            qs.append(["subscriptions", r, q, lp])
+        qz = list(lead)
+        qz[j] = z
+        qs.append(["subscriptions", r, qz, lp])
+        if rng.random() < 0.3:
+            rng.shuffle(qs)
+            if qs[-1][2] != qz:                                    # keep z's query after another one
+                qs.append(["subscriptions", r, list(qz), lp])
+        ops.extend(qs)
+        if rng.random() < 0.25 and world["objects"] and p is not None:
+            ops.append(["lookupAll", r, list(qz), lp])
+        op = change(z, want) if want in ifaces else None
+        if op is None and R:                                       # some other change of the graph
+            z2 = rng.choice(R)
+            op = change(z2, rng.choice([x for x in ifaces if x < z2] or [0])) if [x for x in ifaces if x < z2] else None
+        if op is not None:
+            ops.append(op)
+        ops.append(["subscriptions", r, list(qz), lp])
+        for q in qs[:2]:
+            ops.append(list(q))
+        if rng.random() < 0.4:                                     # and back (interfaces only)
+            op2 = change(z, want) if want in ifaces and specs[z]["kind"] == "iface" else None
+            if op2 is not None:
+                ops.append(op2)
+                ops.append(["subscriptions", r, list(qz), lp])
+        if rng.random() < 0.3:
+            kk = rng.choice(keys)
+            ops.append(["subscribe", rng.randrange(n_regs), list(kk[0]), kk[1], RC.gen_value(rng, 4)])
+    for r in range(n_regs):
+        ops.append(["allSubscriptions", r])
+    # the driver starts from the original world
+    world["ops"] = ops
+    world["specs"] = specs0
+    world["stream"] = "dynamic"
+    return world
+
+
 def generate(run, tier):
     rng = run.rng("gen")
-    n = 260 if tier == "quick" else 3000
-    return [_gen_case(rng, tier) for _ in range(n)]
+    n = 200 if tier == "quick" else 2400
+    cases = [_gen_case(rng, tier) for _ in range(n)]
+    rng2 = run.rng("dyn")
+    m = 120 if tier == "quick" else 1500
+    cases += [_dyn_case(rng2, tier) for _ in range(m)]
+    return cases
+
+
+def _cop_terms(case, obs):
+    terms, answers = [], []
+    objects = case.get("objects", [])
+    for op, a, asg in zip(case["ops"], obs["answers"], obs["assigns"]):
+        if op[0] in ("setspecbases", "classimplements"):
+            if a != []:
+                raise C.HarnessError("specification op failed in the driver: %r" % (op,))
+            for x, bs in asg:
+                terms.append("(CSetSpecBases %d %s)" % (x, RC.c_lnat(bs)))
+                answers.append([])
+        else:
+            terms.append("(CReg %s)" % RC.c_op(op, obs, objects))
+            # the 999999 separator of ``subscribers`` answers is written as 0 (see Tie/C07.v)
+            answers.append([0 if (x == 999999 and op[0] == "subscribers") else x for x in a])
+    return terms, answers
 
 
 def coq_case(case, obs, mode):
     if "error" in obs:
         raise C.HarnessError("driver error: " + obs["error"])
-    # the 999999 separator of ``subscribers`` answers is written as 0 (see Tie/C07.v)
-    ans = [[0 if (x == 999999 and op[0] == "subscribers") else x for x in a]
-           for op, a in zip(case["ops"], obs["answers"])]
-    return RC.coq_hist_case(case, dict(obs, answers=ans))
+    if obs.get("trouble"):
+        raise C.HarnessError("driver trouble: " + "; ".join(obs["trouble"][:3]))
+    terms, answers = _cop_terms(case, obs)
+    return "(%s, %s,\n   [%s],\n   %s)" % (RC.c_graph(obs), RC.c_ifaces(obs), ";\n    ".join(terms),
+                                           RC.c_answers(answers))
 
 
 def _answers(case, obs, kind):
@@ -289,6 +477,16 @@ def replay_text(case, obs, mode):
             L.append("regs[%d].%s(%s, %s, %s)" % (op[1], k, req(op[2]), prov(op[3]), value(op[4])))
         elif k == "rebuild":
             L.append("regs[%d].rebuild()" % op[1])
+        elif k == "setspecbases":
+            L.append("I%d.__bases__ = (%s)" % (op[1], "".join(_py_spec(b, specs) + ", " for b in op[2]) or "Interface, "))
+        elif k == "classimplements":
+            L.append("from zope.interface import classImplements; classImplements(C%d, %s)" % (
+                op[1], ", ".join("I%d" % b for b in op[2])))
+        elif k in ("lookupAll", "names"):
+            L.append("print(list(regs[%d].%s(%s, %s)))   # op %d observed %r" % (op[1], k, req(op[2]), prov(op[3]), n, a))
+        elif k == "lookup":
+            L.append("print(regs[%d].lookup(%s, %s, %r))   # op %d observed %r" % (
+                op[1], req(op[2]), prov(op[3]), "" if op[4] == 0 else "n%d" % op[4], n, a))
         elif k == "subscriptions":
             L.append("print(regs[%d].subscriptions(%s, %s))   # op %d observed vids %r" % (op[1], req(op[2]), prov(op[3]), n, a))
         elif k == "subscribed":
